@@ -775,6 +775,17 @@ class Frame(object):
                                             endpoint=False)
         ff, _ = np.meshgrid(restricted_fs, self.ts)
 
+        # Scalars may come as numpy scalars of any width or 0-d arrays (e.g. a multiple of 
+        # a float32 noise_std): treat them like Python floats. A path may carry units.
+        def _scalar_to_float(x):
+            if isinstance(x, (np.number, np.ndarray)) and np.ndim(x) == 0 and not isinstance(x, np.bool_):
+                return float(x)
+            return x
+        if not callable(path):
+            path = _scalar_to_float(unit_utils.get_value(path, u.Hz))
+        t_profile = _scalar_to_float(t_profile)
+        bp_profile = _scalar_to_float(bp_profile)
+
         # Handle t_profile
         if callable(t_profile):
             # Integrate in time direction to capture temporal variations more
@@ -830,7 +841,8 @@ class Frame(object):
                     ts = self.ts_ext
                 path = path(ts)
         elif isinstance(path, (list, np.ndarray)):
-            path = np.array(path)
+            # As floats: differences of unsigned integer frequencies would wrap around
+            path = np.array(path, dtype=float)
             if doppler_smearing:
                 if path.shape != (self.tchans + 1,):
                     raise ValueError(f'To Doppler smear power, must provide '
